@@ -29,6 +29,9 @@ type C20Reg struct {
 	PanicOn []int   `json:"panic_on,omitempty"`
 	Cancels bool    `json:"cancels,omitempty"` // cancels the publish context on its first invocation
 	Yields  int     `json:"yields"`
+	// Clears (1 Clear of the event type, 2 ClearAll): on its first invocation the handler empties the registry from
+	// inside the publish - whose Once handlers then have nothing left to be removed from; the publish still completes
+	Clears int `json:"clears,omitempty"`
 	Nested  bool    `json:"nested,omitempty"` // on its first invocation publishes an event of a second type from inside the handler (with its own context if context-aware)
 }
 
@@ -68,6 +71,9 @@ func genC20(rt *rapid.T) core.Scenario {
 		}
 		r.Cancels = rapid.IntRange(0, 4).Draw(rt, "cancels") == 4
 		r.Nested = rapid.IntRange(0, 4).Draw(rt, "nested") == 4
+		if rapid.IntRange(0, 5).Draw(rt, "clears") == 5 {
+			r.Clears = rapid.IntRange(1, 2).Draw(rt, "clearKind")
+		}
 		sc.Regs = append(sc.Regs, r)
 	}
 	np := rapid.IntRange(1, 2).Draw(rt, "nPublishers")
@@ -274,6 +280,14 @@ func (sc *C20Scenario) Execute(t *testing.T) *core.Outcome {
 				}
 				nestedPubs++
 				allTypes[typeB].Pub(w, nctx, 7000+id)
+			}
+			if r.Clears != 0 && k == 0 {
+				out.Fault("clear-during-publish")
+				if r.Clears == 2 {
+					clearAll(w)
+				} else {
+					ops.Clear(w)
+				}
 			}
 			if r.Cancels && k == 0 {
 				if c := cancelFn[id]; c != nil {
